@@ -117,7 +117,7 @@ def apply(a, b, op):
 
 def caps(tier):
     """(max @namespace rules, max style rules in A, max style rules in B, max selectors per rule)"""
-    return (2, 1, 1, 1) if tier == 'quick' else (3, 2, 1, 2)
+    return (2, 1, 1, 1) if tier == 'quick' else (3, 1, 1, 2)
 
 
 def ops(a, b, tier):
